@@ -357,5 +357,9 @@ def rule_call(repo: Repo) -> RuleResult:
 
 
 def rules(repo: Repo, tier: str) -> List[RuleResult]:
+    from . import c03
     return [rule_thread(repo, "C04.thread", "TrajectoryExporter.parse_plan", "create_single_triplet"),
-            rule_refuse(repo), rule_except(repo), rule_flag(repo), rule_call(repo)]
+            rule_refuse(repo), rule_except(repo), rule_flag(repo), rule_call(repo),
+            # 'every post-state is the successor of its pre-state under that step's action': the transition clauses of C03
+            c03.rule_antecedent(repo).as_rule("C04.step.antecedent"), c03.rule_copy(repo).as_rule("C04.step.copy"),
+            c03.rule_universal(repo).as_rule("C04.step.universal"), c03.rule_prestate_rhs(repo).as_rule("C04.step.prestate_rhs")]
